@@ -729,13 +729,13 @@ fn run_session_case(ctx: &mut Ctx, rng: &mut Rng, resp: &[Vec<u8>], untagged: &[
             if !fine {
                 line = format!("{} {} done\r\n", tag, status).into_bytes();
             }
-            // buffer-aligned answers: one time in twelve the complete answer to this command ends exactly on a
+            // buffer-aligned answers: one time in twenty the complete answer to this command ends exactly on a
             // multiple of a receive-buffer size (tokio-util starts with 8 KiB and doubles): a filler response in
             // front of the completion makes up the difference.  With a reactive server the peer is then silent
             // exactly when the receive buffer is full.
             let mut aligned = false;
-            if rng.chance(1, 12) {
-                let unit = *rng.pick(&[8192usize, 8192, 8192, 4096, 1024]);
+            if rng.chance(1, 20) {
+                let unit = *rng.pick(&[8192usize, 8192, 1024]);
                 let so_far = server.len() + part.len() + line.len();
                 let target = ((so_far + 8 + unit - 1) / unit) * unit;
                 let f = target - so_far;
